@@ -46,3 +46,37 @@ func init() {
 		return 0
 	}
 }
+
+// alone1: one source compiled and run in a process of its own (stdin: {src, texts}); the baseline
+// "what the call returns when executed alone" for sources outside the modelled subsets
+func init() {
+	subcommands["alone1"] = func(args []string) int {
+		var in Node
+		if err := json.NewDecoder(os.Stdin).Decode(&in); err != nil {
+			return 2
+		}
+		out := Node{}
+		v, err, pan, _ := compileSafe(nstr(in, "src"))
+		if pan != "" {
+			out["cpanic"] = pan
+		} else if err != nil {
+			out["cerr"] = err.Error()
+		} else {
+			var runs []any
+			if arr, ok := in["texts"].([]any); ok {
+				for _, t := range arr {
+					ms, p, _, _, _ := runSafe(v, string(anyBytes(t)), 0)
+					if p != "" {
+						runs = append(runs, Node{"panic": p})
+						continue
+					}
+					runs = append(runs, projMatches(ms))
+				}
+			}
+			out["runs"] = runs
+		}
+		b, _ := json.Marshal(out)
+		fmt.Println(string(b))
+		return 0
+	}
+}
